@@ -83,7 +83,7 @@ def is_atomic_vector(value: Any) -> bool:
     not represent any vector operation, such as `VectorCross`.
     """
 
-    return isinstance(value, (VectorSymbol, AppliedVectorFunction))
+    return isinstance(value, (VectorSymbol, AppliedVectorFunction, VectorDerivative))
 
 
 @cacheit
